@@ -334,11 +334,18 @@ class Glencoe(Base):
     def document(self, model):
         feats = [f for f, _ in build.iter_feats(model["root"])]
         ids = {}
-        style = self.pick(["name", "Feature_n", "Feature_n", "uuid-like"])
+        style = self.pick(["name", "Feature_n", "Feature_n", "uuid-like", "shifted-names"])
+        if style == "shifted-names" and len(feats) < 2:
+            style = "Feature_n"
         if style != "name":
             self.labels.add("id-differs-from-name")
+        if style == "shifted-names":
+            self.labels.add("id-is-another-features-name")      # e.g. after renaming features in an editor
         for i, f in enumerate(feats):
-            ids[f["name"]] = f["name"] if style == "name" else (f"Feature_{i + 1}" if style == "Feature_n" else f"f-{i:04x}-{len(f['name'])}")
+            if style == "shifted-names":
+                ids[f["name"]] = feats[(i + 1) % len(feats)]["name"]
+            else:
+                ids[f["name"]] = f["name"] if style == "name" else (f"Feature_{i + 1}" if style == "Feature_n" else f"f-{i:04x}-{len(f['name'])}")
         optional = {model["root"]["name"]: self.flip()}
         table = {}
         for f in feats:
